@@ -6,4 +6,7 @@ INSTANCES = [
      'defs': {'VF_MAXCOUNT': 4}, 'unwind': 4, 'nthreads': 4, 'timeout': 900,
      'bounds': '4 threads (2x count_down(n), wait, arrive_and_wait|wait); count 1..4; wait loop unwound 4x; <=1 spurious futex return per thread',
      'thorough': {'defs': {'VF_MAXCOUNT': 6}, 'unwind': 5}},
+    {'name': 'latch_seq', 'src': 'latch.cpp', 'engine': 'cbmc-seq',
+     'defs': {'VF_MAXCOUNT': 4}, 'unwind': 3, 'nthreads': 4, 'steps': 10, 'spin_loops': True, 'timeout': 900,
+     'bounds': '4 threads (2x count_down(n), wait, arrive_and_wait|wait); count 1..4; <= 10 execution segments'},
 ]
